@@ -377,6 +377,9 @@ Proof.
   apply Forall_nil.
 Qed.
 
+Lemma all_stages_lawful g : Forall lawful (stages g) /\ lawful_last (st_adds g).
+Proof. split; [apply stages_lawful|apply adds_lawful_last]. Qed.
+
 (* C10: whatever the committer's filter keeps is accepted, unchanged, by every receiver *)
 Theorem committer_and_receiver_agree g l k :
   pipeline g IgnoreByRef l = Some k -> pipeline g IgnoreNone k = Some k /\ sub k l.
